@@ -145,7 +145,7 @@ def run(ctx):
                'a run that writes no record is not generated (zero-byte file: nothing claimed)', 'filter_output is not driven on files holding a record with zero selected fits (no best chi^2 to classify)', 'plot_params_1d/2d (PNG renderers) only in the thorough tier')
     ctx.require_events('trace:fit-run', 'record:compared', 'meta:compared', 'forms:file-vs-list', 'forms:file-vs-object', 'sequence:compared', 'unchanged:checked')
     ctx.require_regimes('skipped-sources', 'output_convolved', 'no-output_convolved', 'mode:2d', 'mode:3d', 'style:v1', 'style:v2')
-    n_runs = 5 if ctx.quick else 24
+    n_runs = 5 if ctx.quick else 60
     funcs = ['write_parameters', 'write_parameter_ranges', 'extract_parameters', 'filter_output', 'plot']
     for irun in range(n_runs):
         d = ctx.newdir('c10')
